@@ -340,3 +340,31 @@ Qed.
 Print Assumptions tamper_prefix.
 Print Assumptions read_is_prefix.
 Print Assumptions no_man_in_the_middle.
+
+(* ---- the frame counter inside the nonce is a machine integer.  A counter of width w that is incremented per frame takes the
+   same value again only after 2^w frames: two frames of one direction of a connection share a nonce only at that distance.
+   With the 64 bits of the implementation no connection lives that long; a counter kept in 32 bits is back at a recorded frame's
+   value after 2^32 frames (about four terabytes of traffic) - the harness ages a real connection to that point. *)
+From Coq Require Import ZArith Lia ZifyN.
+Definition ctr (w s k : N) : N := ((s + k) mod 2 ^ w)%N.
+Theorem counter_distinct_within_width (w s i j : N) : (i < j)%N -> (j - i < 2 ^ w)%N -> ctr w s i <> ctr w s j.
+Proof.
+  unfold ctr. intros Hij Hd Heq.
+  assert (Hpos : (0 < 2 ^ w)%N) by (apply N.neq_0_lt_0, N.pow_nonzero; discriminate).
+  remember (2 ^ w)%N as M.
+  assert (H1 := N.div_mod (s + i) M ltac:(lia)).
+  assert (H2 := N.div_mod (s + j) M ltac:(lia)).
+  assert (B1 := N.mod_lt (s + i) M ltac:(lia)).
+  rewrite Heq in H1.
+  assert (Hq : (M * ((s + j) / M) - M * ((s + i) / M) = j - i)%N) by lia.
+  assert (Hle : ((s + i) / M <= (s + j) / M)%N) by (apply N.div_le_mono; lia).
+  destruct (N.eq_dec ((s + i) / M) ((s + j) / M)) as [E|E]; [rewrite E in Hq; lia|].
+  assert (Hlt : ((s + i) / M + 1 <= (s + j) / M)%N) by lia.
+  assert (M * ((s + i) / M + 1) <= M * ((s + j) / M))%N by (apply N.mul_le_mono_l; exact Hlt).
+  lia.
+Qed.
+Theorem counter_of_width_32_comes_back (s k : N) : ctr 32 s k = ctr 32 s (k + 2 ^ 32).
+Proof.
+  unfold ctr. rewrite N.add_assoc. rewrite <- (N.mul_1_l (2 ^ 32)) at 2.
+  rewrite N.mod_add by (apply N.pow_nonzero; discriminate). reflexivity.
+Qed.
